@@ -638,7 +638,7 @@ theorem guard_table_partition :
     (∀ s ∈ Gen.FactsC13.panicSites, (guardedSites.contains s || allowedSites.contains s || notCoveredSites.contains s) = true) ∧
     (∀ s ∈ guardedSites, (allowedSites.contains s || notCoveredSites.contains s) = false) ∧
     (∀ s ∈ allowedSites, notCoveredSites.contains s = false) ∧
-    (guardedSites.length, allowedSites.length, notCoveredSites.length) = (11, 17, 23) := by decide
+    (guardedSites.length, allowedSites.length, notCoveredSites.length) = (11, 18, 23) := by decide
 
 /-- **the guarded list, site by site** (only for these a theorem relates validation to the site):
 Builder.reload ← `validate_no_panic_Builder` (both sides regenerated);
